@@ -212,10 +212,32 @@ def run(ctx, eng):
         ctx.ob('FLOW.code', f2.qual, 'exception carries the returned code',
                carried, 'InvalidSettingsValueError(error_code=<what '
                '_validate_setting returned>)', node=f2.node)
+    # update_settings validates everything first (all-or-nothing, C11); the
+    # exception it raises must carry the code as well
+    f2 = m.func('connection.H2Connection.update_settings')
+    rs = [p for p in eng.I.run(f2) if cm.explicit_raise(p) is not None
+          and p.exc['names'] == {'InvalidSettingsValueError'}]
+    carried = bool(rs)
+    for p in rs:
+        o = p.exc.get('obj')
+        f = p.state.objs.get(o, {}) if o else {}
+        ecode = f.get('error_code')
+        val = cm.calls_to(p, '_validate_setting')
+        if not val or ecode != val[-1].result:
+            carried = False
+    ctx.ob('FLOW.code', f2.qual, 'exception carries the returned code',
+           carried, 'InvalidSettingsValueError(error_code=<what '
+           '_validate_setting returned>)', node=f2.node)
     f3 = m.func('exceptions.InvalidSettingsValueError.__init__')
-    ok = any(e.kind == 'write' and e.attr == 'error_code' and
-             e.value == ('p', 'error_code')
-             for p in eng.I.run(f3) for e in p.events)
+    ps = cm.normal_paths(eng.I.run(f3))
+    # every path stores the code it was given (a path that assumed "no code
+    # given" may fall back to the class default: the raise sites above are
+    # each required to pass one)
+    ok = bool(ps) and all(
+        any(e.kind == 'write' and e.attr == 'error_code' and
+            e.value == ('p', 'error_code') for e in p.events) or
+        cm.fact_polarity(p, ('is', ('p', 'error_code'), T.NONE)) is True
+        for p in ps)
     ctx.ob('FLOW.code', f3.qual, 'error_code stored on the exception', ok,
            'self.error_code = error_code', node=f3.node)
     # update() is the inherited MutableMapping.update => __setitem__
